@@ -98,6 +98,25 @@ def module_procedure_body():
     return None
 
 
+def metadata_key_case():
+    """metadata keys are case-insensitive (FORD lower-cases them when it reads them): `Display:` / `Proc_Internals:` in an entity's comment override the project's setting
+    like `display:` / `proc_internals:` do"""
+    out = {}
+    for key_d, key_p in (("display", "proc_internals"), ("Display", "Proc_Internals"), ("DISPLAY", "PROC_INTERNALS")):
+        text = (f"module m\n  !! {key_d}: private\n  !!\n  !! module doc\n  implicit none\n  integer, private :: hid\n    !! hid doc\n  integer, public :: pub\n    !! pub doc\ncontains\n"
+                f"  subroutine s()\n    !! {key_p}: true\n    !!\n    !! s doc\n    integer :: loc\n      !! loc doc\n  end subroutine s\nend module m\n"
+                f"module n\n  !! n doc\n  implicit none\ncontains\n  subroutine t()\n    !! {key_p}: true\n    !!\n    !! t doc\n    integer :: loc2\n      !! loc2 doc\n  end subroutine t\nend module n\n")
+        proj = realrun.build_project({"src/m.f90": text}, display=["public", "protected"], proc_internals=False)
+        mods = {x.name: x for x in proj.modules}
+        out[key_d] = {"variables of m": sorted(v.name for v in mods["m"].variables), "locals of n::t": sorted(v.name for r in mods["n"].subroutines for v in r.variables)}
+    want = {"variables of m": ["hid"], "locals of n::t": ["loc2"]}
+    bad = {k: v for k, v in out.items() if v != want}
+    if bad:
+        return {"confirmed": True, "input": {"source": text, "settings": {"display": ["public", "protected"], "proc_internals": False}}, "actual": bad, "expected": {k: want for k in bad},
+                "how": "real pipeline: what is left in the child lists after prune when the overriding metadata key is spelt in lower, capitalised and upper case"}
+    return None
+
+
 def cases():
     for pd, ep, doc, inproc in itertools.product(["", "private"], ["", "private", "public"], [True, False], [False, True]):
         for display in (["public", "protected"], ["private"], ["public", "private", "protected"]):
@@ -109,7 +128,7 @@ def cases():
 
 
 def search(limit=None):
-    hit = hidden_procedure_namelist() or module_procedure_body()
+    hit = hidden_procedure_namelist() or module_procedure_body() or metadata_key_case()
     if hit:
         return hit
     n = 0
@@ -149,6 +168,11 @@ SITE_CASES = {
         "module blocks\n  !! module doc\n  implicit none\n  private\n  public :: pubsub\ncontains\n  subroutine pubsub()\n    !! pub doc\n    integer :: a\n    common /blk/ a\n  end subroutine pubsub\n"
         "  subroutine privsub()\n    !! UNSELECTEDPRIV doc\n    integer :: a\n    common /blk/ a\n  end subroutine privsub\nend module blocks\n"
         "subroutine outside()\n  !! outside doc\n  integer :: a\n  common /blk/ a\nend subroutine outside\n"}, "proc_internals: true\n", ["UNSELECTEDPRIV"]),
+    "hidden_specifics_with_long_docs": ({"src/gen.f90":
+        "module gen_m\n  !! module doc\n  implicit none\n  private\n  public :: gen, pub_t\n  interface gen\n    !! generic doc\n    module procedure spec_a\n  end interface gen\n"
+        "  type :: pub_t\n    !! type doc\n  contains\n    procedure :: bound => impl_b\n  end type pub_t\ncontains\n"
+        "  subroutine spec_a(x)\n    !! first paragraph of spec_a\n    !!\n    !! SECONDPARA of spec_a\n    integer :: x\n  end subroutine spec_a\n"
+        "  subroutine impl_b(self)\n    !! first paragraph of impl_b\n    !!\n    !! SECONDPARA of impl_b\n    class(pub_t) :: self\n  end subroutine impl_b\nend module gen_m\n"}, "", []),
     "private_namelist": ({"src/nml.f90":
         "module mm\n  !! module doc\n  implicit none\n  private\n  integer :: a\n    !! UNSELECTEDVAR doc\n  namelist /secretnml/ a\n    !! UNSELECTEDNML doc\nend module mm\n"
         "module pp\n  !! public module\n  implicit none\n  integer :: b\n  namelist /pubnml/ b\n    !! pub nml doc\ncontains\n  subroutine s()\n    integer :: c\n    namelist /procnml/ c\n"
@@ -175,6 +199,12 @@ def site_cases(only=None):
                     if f.endswith((".html", ".json", ".js")) and not d.endswith(os.sep + "src"):
                         text = open(os.path.join(d, f), encoding="utf-8", errors="replace").read()
                         leaks += [f"{os.path.relpath(os.path.join(d, f), out)}: holds the text '{w}' of an entity the display options exclude" for w in forbidden if w in text]
+            if name == "hidden_specifics_with_long_docs":
+                # the specifics have no page: what the displayed pages say about them is their whole documentation
+                for page in ("interface/gen.html", "type/pub_t.html"):
+                    text = open(os.path.join(out, page), encoding="utf-8", errors="replace").read() if os.path.exists(os.path.join(out, page)) else ""
+                    if "SECONDPARA" not in text:
+                        leaks.append(f"{page}: the documentation of the procedure shown there stops after its first paragraph (it has no page of its own to read on)")
             if name == "private_namelist":
                 have = sorted(os.listdir(os.path.join(out, "namelist"))) if os.path.isdir(os.path.join(out, "namelist")) else []
                 if have != ["procnml.html", "pubnml.html"]:
